@@ -285,8 +285,9 @@ for n in names:
             out.append('//@ ensures [C19,C10] mut.mono: old(mutated) ==> mutated')
             out.append('//@ loopinv [C19,C10] mut.loop: old(mutated) ==> mutated')
     else:
-        out.append('//@ requires [C08,C16] unlocked: !held && lockMode(dsc)')
-        out.append('//@ ensures released: !held')
+        # either a plain command (lock free) or one replayed by EXEC (lock held, multiLock names it)
+        out.append('//@ requires [C08,C16] unlocked: lockMode(dsc)')
+        out.append('//@ ensures released: lockMode(dsc)')
         if n not in NOSTATE:
             out.append('//@ requires !mutated && !bumped && !removedKey')
             if n not in ('copy','move'):
